@@ -20,6 +20,8 @@ TRUSTED = [
 
 
 def _prefix(res, style):
+    # points whose default text falls outside the modelled fragment of float()/literal_eval cannot be classified
+    res["failures"] = [f for f in res["failures"] if not str(f.get("class") or "").endswith("unmodelled")]
     for f in res["failures"]:
         if f.get("class") is not None:
             f["class"] = "%s:%s" % (style, f["class"])
